@@ -39,8 +39,8 @@ def cls_tokens(v_or_cls):
 
 
 def val_tokens(v):
-    from pytezos.michelson.types import (AddressType, BigMapType, BoolType, ListType, MapType, NatType, OptionType, OrType, PairType, SetType,
-                                         StringType, TicketType, UnitType)
+    from pytezos.michelson.types import (AddressType, BigMapType, BoolType, LambdaType, ListType, MapType, NatType, OptionType, OrType, PairType,
+                                         SetType, StringType, TicketType, UnitType)
     if v is None:
         return ['?']
     if isinstance(v, NatType):
@@ -53,6 +53,8 @@ def val_tokens(v):
         return ['U']
     if isinstance(v, BoolType):
         return ['B1' if bool(v) else 'B0']
+    if isinstance(v, LambdaType):
+        return ['LAM'] + cls_tokens(type(v).args[0]) + cls_tokens(type(v).args[1])
     if isinstance(v, OrType):
         if v.is_left():
             return ['left'] + val_tokens(v.items[0]) + cls_tokens(type(v).args[1])
@@ -116,7 +118,9 @@ def sums(stack):
 
 
 def type_has_ticket(cls):
-    return 'ticket' in json.dumps(cls.as_micheline_expr())
+    def walk(e):      # a lambda value is code: its argument types say nothing about what it holds
+        return e['prim'] == 'ticket' or (e['prim'] != 'lambda' and any(walk(a) for a in e.get('args', [])))
+    return walk(cls.as_micheline_expr())
 
 
 class Real:
@@ -290,7 +294,7 @@ def run(ctx):
     ctx.extra['rule'] = (
         'programs of 1-3 segments (two ticketer addresses) over TICKET/READ_TICKET/SPLIT_TICKET/JOIN_TICKETS/PAIR/UNPAIR/CAR/CDR/SOME/NONE/'
         'IF_NONE/CONS/NIL/ITER/MAP/DUP/DUP n/SWAP/DIG/DUG/DROP/DIP/DIP n/PUSH (incl. set / map literals, sorted or not)/EMPTY_MAP/EMPTY_BIG_MAP/'
-        'GET/GET_AND_UPDATE/UPDATE/LEFT/RIGHT/IF_LEFT/EMPTY_SET/MEM/FAILWITH; '
+        'GET/GET_AND_UPDATE/UPDATE/LEFT/RIGHT/IF_LEFT/EMPTY_SET/MEM/LAMBDA/EXEC/APPLY/FAILWITH; '
         'type-directed generation (amounts 0,1,2,3,5,2^64,10^30; contents nat/string/unit/pair nat string; splits that add up, with a zero '
         'part, or not; joins of matching / other-ticketer / other-contents / other-type tickets; tickets stored in lists, maps, big_maps, on either '
         'side of an or, at the second / third type-argument position of pairs / options / lists of ors) '
@@ -306,9 +310,11 @@ def run(ctx):
         'UPDATE / GET_AND_UPDATE store values of the declared value type (ghost flag `typedStores`): pytezos has no dynamic check there, the '
         'Michelson type checker rejects such programs; the oracle scopes conservation / copy findings that follow an ill-typed store under a '
         'separate key prefix and does not report them; for every compared program the checker accepts, the run must not show an ill-typed store',
+        'lambda values on the final stack are compared by class only (their code is observed through EXEC); the static checker rejects '
+        'LAMBDA / EXEC / APPLY, so programs with lambdas are covered by the ghost-guarded theorem only',
         'TicketType.create is wrapped in-process to log mints (no hook in /repo)',
     ]
-    n_prog = 2000 if quick else 18000
+    n_prog = 1600 if quick else 16000
     real = Real()
     cases, lines, impl, pend = [], [], [], []
     ill_typed = {}
